@@ -310,15 +310,24 @@ func build(S Spec, seed int64) (*W, error) {
 			w.setNodeCond(name, S.Policies[pi].Type, S.Policies[pi].Status)
 		}
 	}
-	// unhealthy conditions appear one after the other
-	for i, c := range S.Claims {
+	// unhealthy conditions appear one after the other; the target's last, so that its toleration boundary is still ahead
+	sick := func(i int) {
+		c := S.Claims[i]
 		if len(c.Unhealthy) == 0 || w.Nodes[i] == "" {
-			continue
+			return
 		}
 		e.Clock.Step(time.Duration(c.UnhealthyStepS) * time.Second)
 		for _, pi := range c.Unhealthy {
 			w.setNodeCond(w.Nodes[i], S.Policies[pi].Type, S.Policies[pi].Status)
 		}
+	}
+	for i := range S.Claims {
+		if i != S.Target {
+			sick(i)
+		}
+	}
+	if S.Target >= 0 && S.Target < len(S.Claims) {
+		sick(S.Target)
 	}
 	w.placeClock()
 
